@@ -61,3 +61,8 @@ claim("C07",
 claim("C08",
       "Decides the region template of the key-emulation branch (<= -0.5: Note On of the negative direction unless tracked and only if a negative note is configured, release positive; (-0.49, 0.49): release both; >= 0.5: mirror image; distinct tracker identifiers), the on/off pairing and tracker-only provenance of AnalogNoteOn/AnalogNoteOff, the affine int transposition with range guard, the release when an axis stops emulating keys, and that the parser fills Note / NoteNeg / Bidirectional from note / note_negative.",
       COMMON_NOTE, "path-effect enumeration over go/ssa matched against region templates + shared note-lifecycle, arithmetic and field-correspondence rules")
+
+claim("C16",
+      "Decides (a) static lockset race freedom of every Device field over the three per-device goroutine roots (event loop and disconnect clean-up in the window between the go statements and wg.Wait; LED refresh; MIDI-input tracking): any two accesses from different roots, one of them a write, hold a common mutex on all paths (must-lockset, interprocedural, action tables resolved), and the lock order is acyclic; (b) the termination structure: helpers counted by wg.Add, each deferring wg.Done first and receiving the cancelled context, cancel() then wg.Wait() on every path from the end of the input loop to return, every blocking select/loop of the helpers observing ctx.Done(), sleeps bounded constants; (c) no cross-talk: no run-time writes to package-level variables, reference-typed Device fields created fresh per device, shared configuration never written. 'Promptly' (progress, third-party call durations) is NOT decided.",
+      COMMON_NOTE + " OpenRGB client calls are assumed to return.",
+      "interprocedural must-lockset analysis over go/ssa with goroutine roots and a go..Wait window; dominance-based termination-structure rules; who-may-write (with a positive/negative lockset control)")
